@@ -355,9 +355,9 @@ def groups(tier):
             add("%s-o%s" % (name, "".join(map(str, order))),
                 {"rules": [[p, list(ch)] for p, ch, _ in rules], "shifts": [s for _, _, sh in rules for s in sh], "sdom": []})
     # (b) universes recorded by real searches, with and without reverse rules
-    opts = ["plain", "inferral", "symmetry", "factory", "factory2", "finite", "finite-ev", "k", "ku", "two"]
+    opts = ["plain", "inferral", "symmetry", "factory", "factory2", "finite", "finite-ev", "k", "ku", "two", "oneway"]
     if tier == "thorough":
-        opts += ["inferral-factory-finite", "two-k", "kk", "ku-factory"]
+        opts += ["inferral-factory-finite", "two-k", "kk", "ku-factory", "oneway-k"]
     gs += e2e.std_groups(tier, dbs=("forest", "forest-noreverse"), opts=opts, sched=(tier == "thorough"), rng=False, S3=(tier == "thorough"))
     return gs
 
